@@ -13,6 +13,7 @@ from ..extract import assignments, fn_stmts, single_def, stmt_site, where
 from ..facts import FactFlow, entails
 from ..harness import Harness
 from ..interp import Raised, StepLimit
+from ..normalize import inline_helpers
 from ..models import ccsds_bytes, file_source, socket_source, source_externals
 from ..program import AnchorMissing
 
@@ -25,7 +26,7 @@ class Roles:
 
     def __init__(self, prog):
         self.prog = prog
-        self.fi = fi = prog.func(GEN)
+        self.fi = fi = inline_helpers(prog, prog.func(GEN))
         ys = [n for n in walk_local(fi.node) if isinstance(n, ast.Yield)]
         if len(ys) != 1 or ys[0].value is None:
             raise AnchorMissing(f"expected exactly one yield in ccsds_generator, found {len(ys)}")
@@ -125,48 +126,75 @@ def length_arithmetic(ctx: Ctx, r: Roles, rule: str):
 
 
 def cursor_updates(ctx: Ctx, r: Roles, rule: str):
+    """Per iteration the cursor moves by the prefix before the header slice and by the packet length after the packet
+    slice.  Every write of the cursor in the loop is classified: trim reset (`P = 0` right after `B = B[P:]`), or an
+    advance `P += d` / `P = E` (d = E - P); the advances before / after the packet slice are summed."""
     fi = r.fi
     writes = [st for st in fn_stmts(fi) if any(n is st for n in ast.walk(r.loop))
               and ((isinstance(st, ast.AugAssign) and dotted(st.target) == r.P)
                    or (isinstance(st, ast.Assign) and any(dotted(t) == r.P for t in st.targets)))]
+    b0 = r.builder(expand=False)
     b = r.builder(expand=True)
-    n_aff = b.build(r.x_slice.slice.upper) - Aff.atom(r.P)
+    P = Aff.atom(r.P)
+    n_aff = b.build(r.x_slice.slice.upper) - P
+    try:
+        n_raw = b0.build(r.x_slice.slice.upper) - b0.build(r.x_slice.slice.lower)
+    except Unsupported:
+        n_raw = None
     skip_name = "skip_header_bytes" if "skip_header_bytes" in fi.params else None
-    adv = [w for w in writes if isinstance(w, ast.AugAssign) and isinstance(w.op, ast.Add)]
     x_line = (r.x_stmt or r.yield_node).lineno
-    after = [w for w in adv if w.lineno > x_line]
-    before = [w for w in adv if w.lineno < x_line]
-    site = f"{GEN}::cursor-advance"
-    if len(after) != 1:
-        ctx.refuted(rule, site, f"{len(after)} cursor advances after the packet slice; exactly one `{r.P} += N` is needed "
-                                f"for consecutive packets", where=where(fi, r.x_stmt or fi.node))
-    else:
-        try:
-            d = b.build(after[0].value)
-            ctx.decide(d == n_aff, rule, site, "cursor advances by the packet length",
-                       f"cursor advances by {d!r} after a packet of length {n_aff!r}", where=where(fi, after[0]))
-        except Unsupported as e:
-            ctx.unknown(rule, site, str(e))
-    site = f"{GEN}::cursor-skip"
-    if skip_name:
-        if len(before) != 1:
-            ctx.refuted(rule, site, f"{len(before)} cursor advances before the header slice; exactly one "
-                                    f"`{r.P} += skip_header_bytes` is needed", where=where(fi, fi.node))
-        else:
-            try:
-                d = b.build(before[0].value)
-                ctx.decide(d == Aff.atom(skip_name), rule, site, "prefix bytes are skipped once per packet",
-                           f"cursor skips {d!r} before the header, the declared prefix is {skip_name}", where=where(fi, before[0]))
-            except Unsupported as e:
-                ctx.unknown(rule, site, str(e))
-    # other writes: only the trim reset
+    top = set(map(id, r.loop.body))
+    before, after, shape_problem = [], [], None
     for w in writes:
-        if w in adv:
+        if isinstance(w, ast.Assign) and isinstance(w.value, ast.Constant) and w.value.value == 0 and _is_trim_reset(r, w):
+            ctx.proved(rule, f"{GEN}::cursor-write::{norm(w)}", "cursor reset belongs to the buffer trim", where=where(fi, w))
             continue
         site = f"{GEN}::cursor-write::{norm(w)}"
-        ok = isinstance(w, ast.Assign) and isinstance(w.value, ast.Constant) and w.value.value == 0 and _is_trim_reset(r, w)
-        ctx.decide(ok, rule, site, "cursor reset belongs to the buffer trim",
-                   f"unexpected write to the cursor: `{norm(w)}`", where=where(fi, w))
+        try:
+            if isinstance(w, ast.AugAssign) and isinstance(w.op, ast.Add):
+                raw, d = b0.build(w.value), b.build(w.value)
+            elif isinstance(w, ast.AugAssign) and isinstance(w.op, ast.Sub):
+                raw, d = -b0.build(w.value), -b.build(w.value)
+            elif isinstance(w, ast.Assign) and len(w.targets) == 1:
+                raw, d = b0.build(w.value) - P, b.build(w.value) - P
+            else:
+                raise Unsupported(f"cursor written by `{norm(w)}`")
+        except Unsupported as e:
+            ctx.unknown(rule, site, str(e), where=where(fi, w))
+            shape_problem = w
+            continue
+        if id(w) not in top:
+            ctx.unknown(rule, site, "conditional cursor write (not on the main path of the loop body)", where=where(fi, w))
+            shape_problem = w
+            continue
+        (after if w.lineno > x_line or (w.lineno == x_line and w is not r.x_stmt and _after(r, w)) else before).append((w, raw, d))
+    if shape_problem is not None:
+        return
+    site = f"{GEN}::cursor-advance"
+    if not after:
+        ctx.unknown(rule, site, f"no write of `{r.P}` after the packet slice recognised (decided by the framing tables)",
+                    where=where(fi, r.x_stmt or fi.node))
+    else:
+        raw = sum((x[1] for x in after), Aff.k(0))
+        d = sum((x[2] for x in after), Aff.k(0))
+        ok = (n_raw is not None and raw == n_raw) or d == n_aff
+        ctx.decide(ok, rule, site, "cursor advances by the packet length",
+                   f"cursor advances by {d!r} after a packet of length {n_aff!r}", where=where(fi, after[0][0]))
+    site = f"{GEN}::cursor-skip"
+    if skip_name:
+        d = sum((x[2] for x in before), Aff.k(0))
+        ctx.decide(d == Aff.atom(skip_name), rule, site, "prefix bytes are skipped once per packet",
+                   f"cursor skips {d!r} before the packet slice, the declared prefix is {skip_name}",
+                   where=where(fi, before[0][0] if before else fi.node))
+    elif before:
+        d = sum((x[2] for x in before), Aff.k(0))
+        ctx.decide(d == Aff.k(0), rule, site, "no skip", f"cursor moves by {d!r} before the packet slice", where=where(fi, before[0][0]))
+
+
+def _after(r: Roles, w) -> bool:
+    body = r.loop.body
+    ref = r.x_stmt if r.x_stmt in body else None
+    return ref is not None and w in body and body.index(w) > body.index(ref)
 
 
 def _is_trim_reset(r: Roles, w: ast.Assign) -> bool:
